@@ -138,7 +138,7 @@ def engine_consts(dev, menu, lines, maxlines, maxfiles, joinsets, modes, intrs, 
     # `<-` substitutions are written through the raw-string path of cfg_text
     return {"Dev": {q(d) for d in dev}, "Statements": "<-" + menu, "TableDefs": {q(t) for t in tdefs},
             "LineSet": "<-" + lines, "MaxLines": maxlines, "MaxFiles": maxfiles, "JoinLineSets": "<-" + joinsets,
-            "Modes": {q(m) for m in modes}, "InterruptPoints": "<-" + intrs, "Lazy": False}
+            "Modes": {q(m) for m in modes}, "InterruptPoints": "<-" + intrs, "Lazy": False, "MinLines": 0}
 
 
 def engine_run(c, name, menu, lines="Lines3", maxlines=3, maxfiles=2, joinsets="JoinSets", modes=("batch",), intrs="NoIntr",
@@ -169,12 +169,13 @@ def engine_run(c, name, menu, lines="Lines3", maxlines=3, maxfiles=2, joinsets="
     return rep
 
 
-def engine_sim(c, name, menu, lines="Lines4", maxlines=10, num=2000, modes=("batch", "incr"), tdefs=("plain",), joinsets="JoinSets", invs=ENGINE_INVS):
+def engine_sim(c, name, menu, lines="Lines4", maxlines=10, num=2000, modes=("batch", "incr"), tdefs=("plain",), joinsets="JoinSets", invs=ENGINE_INVS, minlines=0):
     """Random LONG inputs: TLC -simulate on the lazy-input configuration of Engine.tla (lines arrive one by one, up to maxlines),
     invariants checked along every behaviour, every finished behaviour replayed on the real code."""
     dev = vlib.open_devs(ENGINE_DEVS)
     k = engine_consts(dev, menu, lines, maxlines, 1, joinsets, modes, "NoIntr", tdefs)
     k["Lazy"] = True
+    k["MinLines"] = minlines
     r = tlc("MC_Engine", cfg_text(constants=k, invariants=(list(invs) if not dev else ["TypeOK"]) + ["Emit"]), "engine-sim-" + name, workers=1, timeout=1500,
             simulate="num=%d" % num, sim_depth=4 * maxlines + 20)
     if r.violated or r.error:
@@ -304,6 +305,7 @@ def check_C11(tier):
     laws_trace(c, 2 if t else 1, 300 if t else 100)
     engine_sim(c, "incr", "AggMenu", lines="LinesRich", maxlines=10, num=2000 if t else 150, modes=("incr",))
     engine_sim(c, "incr-core", "CoreMenu", lines="Lines4", maxlines=12, num=1000 if t else 80, modes=("incr",))
+    engine_sim(c, "incr-percentile-long", "PercentileZeroMenu", lines="LinesAroundZero", maxlines=60, num=300 if t else 24, modes=("incr",), invs=["TypeOK", "IncrRefinesSem"], minlines=40)
     c.rule, c.assumptions, c.exhaustive = ENGINE_RULE, ENGINE_ASSUME, True
     return c.finish()
 
